@@ -274,7 +274,25 @@ def directed_templates():
         tmpl([slot] + after)
         tmpl([("elem", "view", [], [("elem", "view", [("slot:", ref[0][5:], ref[1])], [txt(name)])] + after)])
         tmpl([("for", d("l"), name, None, None, ("elem", "view", [], [txt(name)]))] + after)
+    # sibling elements that declare slot values in different orders (the generator keeps ONE table of slot value variables per children list,
+    # each element pushes its own names in its own order), and names that are read again after an inner scope of the same name has closed
+    both = ("text", ("mixed", [("e", ("data", "a")), ("s", "|"), ("e", ("data", "b")), ("s", "|"), ("e", ("data", "sv"))]))
+    for r1, r2, r3 in ((["a"], ["b", "a"], ["sv", "b"]), (["b", "a"], ["a", "b"], ["a"]), (["a", "b", "sv"], ["sv", "a"], ["b", "sv", "a"]), (["sv"], ["a"], ["b", "sv"])):
+        sib = [("elem", "view", [("slot:", nm_, None) for nm_ in rs] + [("plain", "title", d(rs[0]))], [both]) for rs in (r1, r2, r3)]
+        tmpl(sib)
+        tmpl([("elem", "cmp-x", [], sib), both])
+        tmpl([("for", d("l"), "a", "b", None, ("block", sib + [both]))])
+    inner = ("for", ("expr", ("smember", ("data", "item"), "sub")), None, None, None, ("block", [("text", ("mixed", [("s", "["), ("e", ("data", "item")), ("s", "]")]))]))
+    after_inner = ("elem", "text", [("plain", "title", d("index"))], [("text", ("expr", ("smember", ("data", "item"), "k")))])
+    tmpl([("for", d("l"), None, None, None, ("block", [inner, after_inner])), txt("item")])
+    tmpl([("for", d("l"), "a", "a2", None, ("block", [("for", d("o"), "a", "b", None, ("block", [txt("a")])),
+                                                     ("text", ("mixed", [("e", ("data", "a")), ("s", "|"), ("e", ("data", "b")), ("s", "|"), ("e", ("data", "a2"))]))])), txt("a")])
+    tmpl([("elem", "view", [("slot:", "a", None)], [("elem", "view", [("slot:", "a", ("static", "a"))], [txt("a")]), txt("a"),
+                                                   ("for", d("l"), "a", None, None, ("block", [txt("a")])), ("elem", "v", [], [txt("a")])]), txt("a")])
     pool = tg.MODULE_POOL
+    for mods in ([pool[0]], [pool[1], pool[0]]):
+        nm0 = mods[0][0]
+        tmpl([("for", d("l"), nm0, None, None, ("block", [txt(nm0)])), ("elem", "v", [], [("text", ("expr", ("smember", ("data", nm0), "tag")))])], modules=mods, slot_values=False)
     use = lambda n: ("elem", "v", [], [("text", ("expr", ("smember", ("data", n), "tag")))])
     for mods in ([pool[0], pool[1]], [pool[1], pool[0]], [pool[0], pool[1], pool[2]], [pool[2], pool[0]]):
         names = [m[0] for m in mods]
